@@ -811,7 +811,7 @@ struct FanoutSession : public Session {
    {
       for (size_t i = 0; i < lanes.size() && !failed; i++) {
          Lane & l = *lanes[i]; const std::vector<std::string> & g = l.rx.got; std::vector<std::string> e = l.exp; if (prefixOnly && g.size() < e.size()) e.resize(g.size());
-         if (e != g && (l.riskT || l.riskZ)) { size_t k = 0; while (k < e.size() && k < g.size() && e[k] == g[k]) k++; LaneFail(l, i, "", vh::fmt("%zu Messages given to the sender, %zu received, first difference at index %zu", l.exp.size(), g.size(), k)); return; }
+         if (e != g && (l.riskT || l.riskZ)) { size_t k = 0; while (k < e.size() && k < g.size() && e[k] == g[k]) k++; LaneFail(l, i, "", vh::fmt("%zu Messages given to the sender, %zu received, first difference at index %zu", l.exp.size(), g.size(), k) + ((k < e.size() && k < g.size()) ? (" expected[" + vh::hex(e[k].data(), e[k].size(), 160) + "] got[" + vh::hex(g[k].data(), g[k].size(), 160) + "]") : std::string())); return; }
          size_t before = failed ? 1 : 0; CompareSeq(*this, prefixOnly ? "Message (before Reset)" : "Message", e, g, true);
          if (failed && !before) failDetail = vh::fmt("lane %zu (%s, encoding %d): ", i, KindName(l.kind), l.enc) + failDetail;
       }
